@@ -22,11 +22,11 @@ func init() {
 			"(R4) relation archetypes reset every active table and then purge all lookup containers (C04/R3); (R5) the lock test precedes everything (C07/R1). Not decided: equivalence with a fresh world over a second history.",
 		TrustedBase: []string{"go/types", "frozen classification of the ~90 fields on the reset chain (reset / persistent with reason)", "interval arithmetic over Go's integer types"},
 		Rules: []Rule{
-			{ID: "C16/R1", Run: c16r1, Min: 40},
-			{ID: "C16/R2", Run: c16r2, Min: 2},
-			{ID: "C16/R3", Run: c16r3, Min: 5},
+			{ID: "C16/R1", Run: c16r1, Min: 1},
+			{ID: "C16/R2", Run: c16r2, Min: 1},
+			{ID: "C16/R3", Run: c16r3, Min: 1},
 			{ID: "C16/R4", Run: c16r4, Min: 1},
-			{ID: "C16/R4b", Run: c04r3, Min: 3},
+			{ID: "C16/R4b", Run: c04r3, Min: 1},
 			{ID: "C16/R5", Run: c16r5, Min: 1},
 		},
 	})
@@ -222,7 +222,7 @@ func c16r1(c *core.Ctx) {
 				continue
 			}
 			for i := 0; i < st.NumFields(); i++ {
-				key := o + "." + st.Field(i).Name()
+				key := m.FieldKey(st.Field(i))
 				subject := key + " in " + ri.f.Name
 				switch {
 				case ri.handled[key]:
